@@ -27,7 +27,7 @@ def transforms(rng, recs, rc):
     w = rng.choice([1, 7, 60, 80])
     lines = [[b(r[j:j + w]) for j in range(0, max(len(r), 1), w)] for r in recs]
     out.append(("wrap", w, {"lines": lines}, list(recs), {"wrap": w}))
-    out.append(("gzip", 0, {}, list(recs), {"gz": True}))
+    out.append(("gzip", 0, {}, list(recs), {"gz": rng.choice([True, "multi"])}))
     return out
 
 
